@@ -45,6 +45,7 @@ O = lambda n: ("o", n)
 V = ("v", "v", "A")
 VB = ("v", "vb", "B")
 V2 = ("v", "v2", "A")
+V3 = ("v", "v3", "A")
 PX = ("p", "x")
 H = 2**53 + 1
 
@@ -150,6 +151,22 @@ PROFILES = [
         "arities": (2,),
         "qvars": ((("v", "A"),), (("v2", "A"),)),
         "N": {"quick": 3, "thorough": 3},
+    },
+    {
+        # the capturing binder sits two quantifiers deep inside the sibling conjunct and the outer
+        # one binds a third variable (exists v.((v == v2) & exists v3. forall v2. q(v))): a
+        # capture test that stops at the first quantifier it meets misses it (seed C11-3)
+        "name": "capture-deep",
+        "leaves": [
+            ("eq", V, V2),
+            ("forall", (("v2", "A"),), FL("q", V)),
+            ("exists", (("v2", "A"),), ("and", FL("q", V), FL("q", V2))),
+            FL("q", V3),
+        ],
+        "ops": ["and", "exists", "forall"],
+        "arities": (2,),
+        "qvars": ((("v", "A"),), (("v3", "A"),)),
+        "N": {"quick": 3, "thorough": 4},
     },
     {
         "name": "ifun",
